@@ -159,7 +159,13 @@ def ldexp_model(x, e, n):
 def rcall(ex, b, n, args):
     x = args[0].r
     if b == 'sqrt':
-        y = ex.fresh_real('sqrt'); ex.axioms.append(z3.And(y >= 0, y * y == x)); ex.oblige('domain', x < 0, 'sqrt of negative')
+        memo = getattr(ex, 'sqrt_memo', None)      # opt-in (property module sets ex.sqrt_memo = {}): sqrt of a syntactically identical argument reuses its variable (congruence)
+        if memo is not None:
+            if x.get_id() in memo:
+                ex.oblige('domain', x < 0, 'sqrt of negative'); return RV(n, memo[x.get_id()][1])
+        y = ex.fresh_real('sqrt')
+        if memo is not None: memo[x.get_id()] = (x, y)
+        ex.axioms.append(z3.And(y >= 0, y * y == x)); ex.oblige('domain', x < 0, 'sqrt of negative')
         ex.__dict__.setdefault('sqrt_log', []).append((x, y)); return RV(n, y)      # (argument, variable) in execution order, for lemma chains
     if b == 'fabs': return RV(n, z3.If(x >= 0, x, -x))
     if b == 'floor': return RV(n, z3.ToReal(z3.ToInt(x)))
